@@ -601,6 +601,13 @@ def rebase(snapshot, ghost_before, current):
     cand = {x: y for x, y in ren.items() if x not in bad and y not in snap_set}
     cur_vars = set(t for i_, t in enumerate(strs(current)) if not (i_ > 0 and strs(current)[i_ - 1] == '.'))
     ren = {x: y for x, y in cand.items() if x not in cur_vars}
+    # a new real name that is already used by a ghost local / binder of this function would capture it: alpha-rename the ghost one first
+    # (not when the ghost name is called like a function or is part of a path)
+    for y in set(cand.values()):
+        occ = [(run, i_) for run in ghost_before for i_, t in enumerate(run) if str(t) == y and not (i_ > 0 and str(run[i_ - 1]) == '.')]
+        if not occ: continue
+        if any((i_ + 1 < len(run) and str(run[i_ + 1]) in ('(', '::')) or (i_ > 0 and str(run[i_ - 1]) == '::') for run, i_ in occ): continue
+        ghost_before = [[Tok(y + '_vxg') if (str(t) == y and not (i_ > 0 and str(run[i_ - 1]) == '.')) else t for i_, t in enumerate(run)] for run in ghost_before]
     if ren: ghost_before = [[Tok(ren[str(t)] if (str(t) in ren and not (i_ > 0 and str(run[i_ - 1]) == '.')) else str(t)) for i_, t in enumerate(run)] for run in ghost_before]
     # a name that was renamed in one scope only (e.g. the index of one of two loops that both use `i`): rename the ghost text
     # from the first renamed occurrence to the end of the block enclosing the last one
@@ -671,7 +678,7 @@ def rebase(snapshot, ghost_before, current):
     # statement-level ghost (proof blocks, ghost lets, asserts) must sit at a statement boundary: when the token it was attached
     # to was edited (renamed, or tokens inserted before it) the run would land in mid-statement; move it back to the
     # nearest preceding boundary (after `;` `{` `}`)
-    STMT = ('proof', 'assert', 'let', 'hide', 'reveal', 'reveal_with_fuel')
+    STMT = ('proof', 'assert', 'let', 'hide', 'reveal', 'reveal_with_fuel', 'else')
     i_ = 0
     while i_ < len(items):
         kind, val = items[i_]
